@@ -572,6 +572,15 @@ class _IndexToEnumerate(ast.NodeTransformer):
             return isinstance(e, ast.Constant) and e.value == v and not isinstance(e.value, bool)
         if len(a) == 1 or (len(a) == 2 and const(a[0], 0)):
             x = self._is_len_of(a[-1])
+            if x is None and isinstance(a[-1], ast.BinOp) and isinstance(a[-1].op, ast.Sub) and isinstance(a[-1].right, ast.Constant) \
+                    and isinstance(a[-1].right.value, int) and a[-1].right.value > 0:
+                # range(len(X) - K): all but the last K elements -- the loop over X[:-K]
+                x0 = self._is_len_of(a[-1].left)
+                if x0 is not None and self._chain(x0):
+                    sl = ast.Subscript(value=copy.deepcopy(x0), slice=ast.Slice(lower=None, upper=ast.UnaryOp(op=ast.USub(), operand=ast.Constant(value=a[-1].right.value)),
+                                                                                step=None), ctx=ast.Load())
+                    sl._read_through = x0  # type: ignore[attr-defined]
+                    return (sl, False)
             return (x, False) if x is not None and self._chain(x) else None
         if len(a) == 3 and const(a[1], -1) and const(a[2], -1) and isinstance(a[0], ast.BinOp) and isinstance(a[0].op, ast.Sub) and const(a[0].right, 1):
             x = self._is_len_of(a[0].left)
@@ -614,6 +623,8 @@ class _IndexToEnumerate(ast.NodeTransformer):
             return node
         x, desc = mt
         i = node.target.id
+        iter_x = x
+        x = getattr(x, "_read_through", x)  # the body indexes X itself; the loop runs over a slice of it
         xd = ast.dump(x)
         root = x
         while isinstance(root, ast.Attribute):
@@ -687,7 +698,12 @@ class _IndexToEnumerate(ast.NodeTransformer):
         new = copy.copy(node)
         new.body = [R().visit(copy.deepcopy(st)) for st in node.body]
         new.target = ast.Tuple(elts=[ast.Name(id=i, ctx=ast.Store()), ast.Name(id=e_name, ctx=ast.Store())], ctx=ast.Store())
-        it: ast.AST = ast.Call(func=ast.Name(id="enumerate", ctx=ast.Load()), args=[copy.deepcopy(x)], keywords=[])
+        it: ast.AST = ast.Call(func=ast.Name(id="enumerate", ctx=ast.Load()), args=[copy.deepcopy(iter_x)], keywords=[])
+        if not desc and not any(isinstance(n, ast.Name) and n.id == i for st in new.body for n in ast.walk(st)):
+            # the index is not used any more: the plain loop over the elements
+            new.target = ast.Name(id=e_name, ctx=ast.Store())
+            new.iter = copy.deepcopy(iter_x)  # type: ignore[assignment]
+            return ast.copy_location(new, node)
         if desc:
             it = ast.Call(func=ast.Name(id="reversed", ctx=ast.Load()), args=[
                 ast.Call(func=ast.Name(id="list", ctx=ast.Load()), args=[it], keywords=[])], keywords=[])
